@@ -34,7 +34,7 @@ m = {
                  "kind_free_text": "Lean 4 model + theorems (lake build, #print axioms audit), Go fact extractor regenerating Gen/*.lean, Go harness running the real code, Lean driver running the model, python orchestrator comparing them"}],
     "checks": checks,
     "not_applicable": na,
-    "notes": "Every check: regenerate facts from /repo -> re-check the property's theorems -> run real code vs model on generated histories -> verdict. See DESIGN.md.",
+    "notes": "Every check: regenerate facts from /repo -> re-check the property's theorems -> run real code vs model on generated histories -> verdict. A share of the histories of every family that has a coca command goes through the REAL command (cmd/*.go) in a fresh process and is read back from coca_reporter/ or the printed table (CLI tier; counted as input_distribution.through_cli in each evidence file). See DESIGN.md section 0.",
 }
 json.dump(m, open(os.path.join(V, "MANIFEST.json"), "w"), indent=1)
 try:
